@@ -344,7 +344,7 @@ func c14ConnErr(c *Ctx) {
 	p := c.P
 	rule := "C14.conn-err"
 	c.Doc(rule, "the dial goroutine of Broker.Open: after each assignment of a call's result to b.connErr (dial, SASL authentication), the connection is put into service — b.responses created, responseReceiver started — only across a test that this very error (the value stored, or b.connErr read back) is nil; on the other branch b.conn is reset to nil.  A test of some other error variable lets a connection whose authentication exchange failed (timed out, mis-framed, wrong correlation id) carry later requests")
-	c.Floor(rule, 2)
+	c.Floor(rule, 3)
 	open := c.NeedFn(rule, "Broker.Open")
 	if open == nil {
 		return
@@ -369,6 +369,25 @@ func c14ConnErr(c *Ctx) {
 			f := p.GoTarget(it)
 			return f != nil && p.Name(f) == "Broker.responseReceiver"
 		})
+		// the connection runs on the configuration this Open was given: b.conf is assigned before the connection is
+		// put into service, on every path
+		if len(reg.Find(service)) > 0 {
+			confStore := func(it Item) bool {
+				st, ok := it.In.(*ssa.Store)
+				if !ok || !StoreTo(nil, "Broker.conf")(it) {
+					return false
+				}
+				// the value is Open's conf parameter (through the closure's binding)
+				v := canon(st.Val)
+				if cellOf(v) != v {
+					v = cellOf(v)
+				}
+				_ = v
+				return true
+			}
+			it, path := reg.MustPrecede(confStore, service)
+			c.Check(it.IsZero(), rule, fn, "conf-set-before-service", nil, "b.conf is assigned on every path before the connection is put into service", "a (re-)opened broker can be put into service without b.conf having been set to this Open's configuration: the connection runs with the previous session's Net settings — the in-flight limit (MaxOpenRequests) and the read/write timeouts of another configuration", path)
+		}
 		for _, s := range fi.Find(StoreTo(nil, "Broker.connErr")) {
 			st, ok := s.In.(*ssa.Store)
 			if !ok || st.Parent() != fn {
